@@ -2,12 +2,16 @@
 Props/C13.lean — every input is either accepted or rejected with a documented diagnostic.
 
 The full property is FALSE for the model (and for the Python): outcomes of kind `internal`
-(an exception other than ParseError / TranslationError escaping) exist; the smallest witness is
-an INCLUDE of a file that does not exist (FileNotFoundError).  What holds, and is proved here:
+(an exception other than ParseError / TranslationError escaping) exist.  An INCLUDE of a file that
+does not exist used to be the smallest witness; after the repair of INCLUDE handling it is a diagnostic
+(see Props/C19.lean, `include_missing_diag`), and the witness kept here is a program that runs past
+address 65535 (`ORG $FFFF`, `NOP`, `NOP`: the address of the second NOP is not a 16-bit value and the
+ValueTypeError escapes `Program.process`).  What holds, and is proved here:
 no stage of `assemble` diverges (the PCR size loop terminates within `length + 1` passes), and
 the line parser never fails with anything but a diagnostic.
 -/
 import CoCoVerif.Lemmas.LayoutFix
+import CoCoVerif.Lemmas.LayoutEval
 
 namespace CoCo.Props
 open CoCo CoCo.Asm
@@ -38,38 +42,34 @@ theorem parseLines_no_internal (ls : List Str) : parseLines ls ≠ .internal ∧
 
 /-! ### refutation of the full statement -/
 
-/-- one line: ` INCLUDE x` -/
-def C13_witness : List Str := [[' ', 'I', 'N', 'C', 'L', 'U', 'D', 'E', ' ', 'x']]
+/-- `ORG $FFFF`, `NOP`, `NOP`: the second NOP would sit at address 65536 -/
+def C13_witness : List Str := [" ORG $FFFF\n", " NOP\n", " NOP\n"].map String.toList
 
-private def isIncludeOfX (o : Outcome (List Stmt)) : Bool :=
-  match o with
-  | .ok [s] => s.row.isInclude && s.operand.text == ['x']
+/-- a program without INCLUDE whose assembly (computed by `assembleFrom`) ends in `internal` -/
+private def endsInternal (lines : List Str) : Bool :=
+  match parseLines lines with
+  | .ok p => p.all (fun s => !s.row.isInclude) &&
+      (match assembleFrom p with | .internal => true | _ => false)
   | _ => false
 
-private theorem witness_parses : isIncludeOfX (parseLines C13_witness) = true := by decide
-
-private theorem isIncludeOfX_elim (o : Outcome (List Stmt)) (h : isIncludeOfX o = true) :
-    ∃ s, o = .ok [s] ∧ s.row.isInclude = true ∧ s.operand.text = ['x'] := by
-  unfold isIncludeOfX at h
+private theorem endsInternal_sound {lines : List Str} (h : endsInternal lines = true) (fs : Files) :
+    assemble fs lines = .internal := by
+  unfold endsInternal at h
   split at h
-  · rename_i s
-    simp only [Bool.and_eq_true, beq_iff_eq] at h
-    exact ⟨s, rfl, h.1, h.2⟩
+  · rename_i p hp
+    simp only [Bool.and_eq_true] at h
+    obtain ⟨h1, h2⟩ := h
+    split at h2
+    · rename_i ha
+      rw [assemble_eq_from hp (expand_noinclude fs 63 [] p h1), ha]
+    · cases h2
   · cases h
 
-private theorem internal_of_include (lines : List Str) (h : isIncludeOfX (parseLines lines) = true) :
-    assemble [] lines = .internal := by
-  obtain ⟨s, hp, h1, h2⟩ := isIncludeOfX_elim _ h
-  have he : expand [] 64 [s] = .internal := by
-    rw [expand, expand.go]
-    simp [h1, h2, Files.get?]
-  unfold assemble
-  rw [hp]
-  simp only [he]
+/-- an address above 65535: ValueTypeError escapes `Program.process` (whatever the host files are) -/
+theorem C13_witness_internal' (fs : Files) : assemble fs C13_witness = .internal :=
+  endsInternal_sound (by decide +kernel) fs
 
-/-- INCLUDE of a missing file: FileNotFoundError escapes `Program.process` -/
-theorem C13_witness_internal : assemble [] C13_witness = .internal :=
-  internal_of_include _ witness_parses
+theorem C13_witness_internal : assemble [] C13_witness = .internal := C13_witness_internal' []
 
 theorem C13_Statement_false : ¬ C13_Statement := by
   intro h
